@@ -109,7 +109,8 @@ def cells_of(log, sheet):
         if meth == "write" and len(a) >= 3 and not isinstance(a[0], str):
             out.append((a[0], a[1], a[1], a[2]))
         elif meth == "merge_range":
-            out.append((a[0], a[1], a[3], a[4]))
+            # a block lives on one row: first_row must be last_row (else the row is reported as inconsistent)
+            out.append((a[0] if a[0] == a[2] else ("rows", a[0], a[2]), a[1], a[3], a[4]))
     return out
 
 
@@ -168,7 +169,7 @@ class ExcelExport(Contract):
         for i, (rn, rs) in enumerate(sol.resources.items()):
             for (n, s, e) in rs.assignments:
                 want.append((i + 1, s, e, n))
-        cs = [z3.BoolVal([t for (_, _, _, t) in names] == list(sol.resources.keys())), z3.BoolVal(len(draws) == len(want))]
+        cs = [z3.BoolVal([(r, t) for (r, _, _, t) in names] == [(i + 1, n) for i, n in enumerate(sol.resources.keys())]), z3.BoolVal(len(draws) == len(want))]
         for (r, c1, c2, t), (wr, s, e, n) in zip(draws, want):
             pos = T(e) - T(s) >= 1
             cs.append(And(z3.BoolVal(r == wr and t == n), Implies(pos, And(T(c1) == T(s) + 1, T(c2) == T(e)))))
@@ -178,7 +179,7 @@ class ExcelExport(Contract):
         tnames = [(r, c1, c2, t) for (r, c1, c2, t) in tv if isinstance(c1, int) and c1 == 0 and r != 0]
         tdraws = [(r, c1, c2, t) for (r, c1, c2, t) in tv if not (isinstance(c1, int) and c1 == 0)]
         tasks = list(sol.tasks.values())
-        cs = [z3.BoolVal([t for (_, _, _, t) in tnames] == [t.name for t in tasks])]
+        cs = [z3.BoolVal([(r, t) for (r, _, _, t) in tnames] == [(i + 1, t.name) for i, t in enumerate(tasks)])]
         sched = [t for t in tasks if t.scheduled]
         rows = {t.name: i + 1 for i, t in enumerate(tasks)}
         # every scheduled task of positive length is drawn on its row from start+1 to end
